@@ -161,6 +161,8 @@ class C08(Property):
 
     def oracle(self, case, impl):
         md, voi = self._md(case)
+        if impl.get('error') == 'AnalysisError':
+            return None     # a solver reported non-convergence: the property's premise is false
         if 'error' in impl:
             return {'what': 'setup/run_model/compute_totals raised %s' % impl['error'],
                     'msg': impl.get('msg')}
@@ -196,7 +198,7 @@ class C08(Property):
     def bucket(self, case, impl):
         md, voi = self._md(case)
         cfg = case['cfg']
-        b = ['impl_error' if 'error' in impl else 'impl_ok', 'cyclic' if md.get('cyclic') else 'acyclic']
+        b = ['solver_reported_failure' if impl.get('error') == 'AnalysisError' else 'impl_error' if 'error' in impl else 'impl_ok', 'cyclic' if md.get('cyclic') else 'acyclic']
         for k in ('mode', 'linear', 'nonlinear', 'jac', 'partials'):
             b.append('%s=%s' % (k, cfg[k]))
         for c in md['comps']:
